@@ -189,20 +189,27 @@ end P3R.C02
 namespace P3R.C02
 open P3R
 
-variable {K : Type} [Neg K] [DecidableEq K]
+variable {K : Type} [Neg K] [Zero K] [DecidableEq K]
 
-/-- The modelled `compile` produces exactly the op list the chain theorem speaks about. -/
+/-- The modelled `compile` produces exactly the op list the chain theorem speaks about, and that
+list passed `validate_horner_chains`. -/
 theorem compile_ops_eq (b : BState K) (c : Circuit K) (h : compile b = .ok c) :
     ∃ l : Lowered K, lower b = .ok l ∧
       c.ops = fuse (dedup l.ops).1 (l.privRows.toList.map (resolve (dedup l.ops).2)) ∧
-      c.rewrite = (dedup l.ops).2 := by
+      c.rewrite = (dedup l.ops).2 ∧ hornerChained c.ops.toList = true := by
   unfold compile at h
   split at h
   · cases h
   · rename_i l hl
     refine ⟨l, hl, ?_⟩
     simp only [optimize] at h
-    cases h
-    exact ⟨rfl, rfl⟩
+    by_cases hch : hornerChained (fuse (dedup l.ops).1 (List.map (resolve (dedup l.ops).2) l.privRows.toList)).toList = true
+    · simp only [hch, Bool.not_true, Bool.false_eq_true, if_false] at h
+      cases h
+      exact ⟨rfl, rfl, hch⟩
+    · have hf : hornerChained (fuse (dedup l.ops).1 (List.map (resolve (dedup l.ops).2) l.privRows.toList)).toList = false := by
+        simpa using hch
+      simp only [hf, Bool.not_false, if_true] at h
+      cases h
 
 end P3R.C02
